@@ -65,7 +65,9 @@ static std::vector<Spec> histCircuits() {
   return v;
 }
 
-static void enumerateAll(const std::function<void(const Spec &)> &f) {
+static void enumerateAll(const std::function<void(const Spec &)> &f0) {
+  // every 37th grid instance also scaled by (3001, 7001): bin capacities pass 2^31
+  auto f = withMagnitudes(f0, 37, {{1, 3001, 7001}}, [](const Spec &s) { return s.aux == 0; });
   // (a) grids: tiny-circuit-like and GP-like regions with obstructions
   {
     int i = 0;
